@@ -8,6 +8,10 @@ GROUPS = [
           loops="C20/link.loops.json", expected_loops=1, unwind=3, checks=CH[:2], timeout=900),
     Group(name="C20/get_int", unity="C20/u_getint.cpp", entry="h_get_int", functions=[("get_int16_le/be, get_int32_le/be", "core/imports_get_int.cpp", "harness (loop-free, full domain)")],
           checks=CH[:2], timeout=200),
+    Group(name="C20/lookup_by_offset[bounded]", unity="C20/u_obj.cpp", entry="h_lookup_by_offset", functions=[("imports_obj_symbol_table_lookup_by_offset", "core/imports_obj.cpp", "harness, bounded")],
+          unwind=34, checks=CH[:2], timeout=900, bounded="one relocation entry; symbol table of 1..300 entries with symbolic contents, 24-bit symbol index below the table size"),
+    Group(name="C20/lookup_by_name[bounded]", unity="C20/u_obj.cpp", entry="h_lookup_by_name", functions=[("imports_obj_symbol_table_lookup_by_name", "core/imports_obj.cpp", "harness, bounded")],
+          unwind=34, checks=CH[:2], timeout=900, bounded="two symbol table entries of the same name (undefined reference, then definition); values symbolic"),
 ]
 LEVEL = "other"
 EXPLANATION = ("Contract proof (DFCC loop contract, unbounded function size, witness word) of the relocation step link_function_mips and of the byte-order helpers; "
